@@ -899,7 +899,19 @@ func (p *Pkg) Apply(root interface{}, a *Atom) error {
 			if f.IsNil() {
 				f.Set(reflect.MakeMap(f.Type()))
 			}
-			if ex := f.MapIndex(k); ex.IsValid() {
+			ex := f.MapIndex(k)
+			if !ex.IsValid() && (k.Kind() == reflect.Interface || k.Kind() == reflect.Ptr) {
+				// wrapper-union keys are pointers: equal keys are different map keys, so look the
+				// entry up by canonical value
+				want := PElem{Keys: p.KeyKVs(k, keyNames)}.KeyString()
+				for _, mk := range f.MapKeys() {
+					if (PElem{Keys: p.KeyKVs(mk, keyNames)}).KeyString() == want {
+						ex = f.MapIndex(mk)
+						break
+					}
+				}
+			}
+			if ex.IsValid() {
 				cur = ex
 			} else {
 				if err := p.SetKeyLeaves(entry, keyNames, s.Key); err != nil {
